@@ -1,6 +1,6 @@
 (* Extraction of the C06 models: ExtrOcamlBasic only. *)
 From Coq Require Import ZArith List.
-From PV Require Import Base.U64 C04.C04_Heap Sched.Core Sched.Prog E3.E3_Run C06.C06_Model C06.C06_QModel C06.C06_RWRun C06.C06_E2 C06.C06_QE3.
+From PV Require Import Base.U64 C04.C04_Heap Sched.Core Sched.Prog E3.E3_Run C06.C06_Model C06.C06_QModel C06.C06_RWRun C06.C06_E2 C06.C06_QE3 C06.C06_QE3B.
 Require Extraction.
 Require Import ExtrOcamlBasic.
-Extraction "c06_model.ml" c06_run c06_init run_obs view rw0 qrw0 qstep qth_step qe3_run e3fin.
+Extraction "c06_model.ml" c06_run c06_init run_obs view rw0 qrw0 qstep qth_step qe3_run e3fin qb_run bfin b_blocked b_holdcount.
